@@ -97,6 +97,8 @@ struct Fiber {
     bool wake_flag;         // woken by futex wake (vs spurious)
     bool noblock;
     uint64_t spin_points;
+    uint32_t spin_run;         // consecutive pause/yield points (loads in between allowed): the fiber is in a spin-wait loop
+    const void* spin_addr;     // the word it polls there
 };
 
 static Fiber* g_fibers[MAX_FIBERS];
@@ -132,8 +134,16 @@ static uint32_t g_tape_pos = 0;
 static int g_window = 0;
 static uint64_t g_clock_scale = 16;  // /16 fixed point
 
-enum { S_RW = 0, S_BURST, S_PCT, S_STALL, S_NSTRAT };
-static const char* const kStratName[] = {"rw", "burst", "pct", "stall"};
+enum { S_RW = 0, S_BURST, S_PCT, S_STALL, S_HUNT, S_NSTRAT };
+static const char* const kStratName[] = {"rw", "burst", "pct", "stall", "hunt"};
+// S_HUNT ("lost wake-up hunter"): a fiber that gives up spinning on a word and turns to its sleep path (first
+// store / RMW / fence / futex call after >= 8 spin points) is held back right there until another fiber writes
+// that word (plus a few points), so that the state change and its notification fall into the sleeper's
+// prepare-wait / re-check window; otherwise the strategy behaves like S_BURST.
+static int g_hunt_victim = -1, g_hunts_left = 0;
+static const void* g_hunt_addr = nullptr;
+static uint64_t g_hunt_release_at = 0;
+static uint32_t g_drain_n = 4;      // a buffered store is drained with probability 1/g_drain_n per schedule point (per run: 4, 16 or 64)
 
 static const uint32_t kCost[K_NKINDS] = {1, 1, 5, 5, 20, 20000, 2000, 2000, 2000, 25, 100, 20000, 100, 100, 3000, 10, 10};
 static const char* const kKindName[K_NKINDS] = {"load", "store", "rmw", "fence", "pause", "yield", "futex_wait", "futex_wake",
@@ -540,7 +550,8 @@ static Fiber* pick_strategy(int kind, Fiber** run, int nrun) {
         for (int i = 0; i < nrun; ++i)
             if (run[i] != cur && g_step - run[i]->last_run_step > bound &&
                 (!starving || run[i]->last_run_step < starving->last_run_step) &&
-                !(g_strategy == S_STALL && run[i]->id == g_stall_victim && g_step >= g_stall_from && g_step < g_stall_to))
+                !(g_strategy == S_STALL && run[i]->id == g_stall_victim && g_step >= g_stall_from && g_step < g_stall_to) &&
+                !(g_strategy == S_HUNT && run[i]->id == g_hunt_victim && g_step < g_hunt_release_at))
                 starving = run[i];
         if (starving) return starving;
     }
@@ -552,10 +563,13 @@ static Fiber* pick_strategy(int kind, Fiber** run, int nrun) {
         }
         return run[g_rng_sched.below(nrun)];
     case S_STALL:
+    case S_HUNT:
     case S_BURST: {
         Fiber* cand[MAX_FIBERS]; int nc = 0;
+        if (g_strategy == S_HUNT && g_hunt_victim >= 0 && g_step >= g_hunt_release_at) g_hunt_victim = -1;
         for (int i = 0; i < nrun; ++i) {
             if (g_strategy == S_STALL && run[i]->id == g_stall_victim && g_step >= g_stall_from && g_step < g_stall_to) continue;
+            if (g_strategy == S_HUNT && run[i]->id == g_hunt_victim) continue;
             cand[nc++] = run[i];
         }
         if (nc == 0) { for (int i = 0; i < nrun; ++i) cand[nc++] = run[i]; }
@@ -665,10 +679,23 @@ void point_slow(int kind, const void* addr) {
             // a store does not stay buffered for ever: bounded delay, independent of the decision source (a replay
             // whose log has run out would otherwise never drain and report an artificial livelock)
             if (g_step - f->tso[0].born > TSO_MAX_AGE) { tso_drain_one(f); continue; }
-            if (sched_choice(4, "drain") == 1) tso_drain_one(f);
+            if (sched_choice(g_drain_n, "drain") == 1) tso_drain_one(f);
         }
     }
-    if (kind == K_PAUSE || kind == K_YIELD) cur->spin_points++;
+    if (kind == K_PAUSE || kind == K_YIELD) { cur->spin_points++; cur->spin_run++; }
+    else if (kind == K_LOAD) { if (cur->spin_run) cur->spin_addr = addr; }
+    else {
+        if (g_strategy == S_HUNT && (kind == K_RMW || kind == K_STORE || kind == K_FENCE || kind == K_FUTEX_WAIT) && addr != cur->spin_addr &&   // an RMW on the polled word itself is a successful acquisition
+            cur->spin_run >= 8 && cur->spin_addr && g_hunt_victim < 0 && g_hunts_left > 0 && g_rng_sched.chance(0.5)) {
+            g_hunt_victim = cur->id; g_hunt_addr = cur->spin_addr; g_hunt_release_at = g_step + 3000 + g_rng_sched.below(6000); --g_hunts_left;
+            if (g_trace) tr("[sim] %llu hunt: f%d held back before its sleep path, polled word %p\n", (unsigned long long)g_step, cur->id, g_hunt_addr);
+        }
+        cur->spin_run = 0;
+    }
+    if (g_hunt_victim >= 0 && cur->id != g_hunt_victim && (kind == K_STORE || kind == K_RMW) && addr == g_hunt_addr) {
+        uint64_t at = g_step + g_rng_sched.below(10);
+        if (at < g_hunt_release_at) g_hunt_release_at = at;
+    }
     if (kind == K_USER) {   // two different fibers interleave inside harness bodies: the run is inside the operation window
         static int last_user_fiber = -1;
         if (last_user_fiber >= 0 && last_user_fiber != cur->id && g_fibers[last_user_fiber]->state != F_DONE) g_window = 1;
@@ -740,6 +767,8 @@ void child_run(const Job& job, const uint64_t* tape, const Dec* dec, Shared* out
     g_stall_victim = (int)g_rng_sched.below(4);
     g_stall_from = g_rng_sched.below(est);
     g_stall_to = g_stall_from + est / 2 + g_rng_sched.below(est * 2);
+    g_hunt_victim = -1; g_hunts_left = 1 + (int)g_rng_sched.below(3);
+    { static const uint32_t dn[] = {4, 4, 16, 64}; g_drain_n = dn[g_rng_sched.below(4)]; }
     g_cfg.strategy = g_strategy;
     if (g_replay) g_strategy = -1;
     alarm(job.tier ? 120 : 60);
